@@ -3,6 +3,7 @@ INVARIANT RetCorrect
 INVARIANT Sound
 INVARIANT IdempotentEval
 INVARIANT PathsServed
+INVARIANT GraphAcyclic
 PROPERTY NoRecompute
 PROPERTY EnvIndependent
 PROPERTY FailClean
